@@ -133,3 +133,66 @@ fn k10_argument_line_beats_env() {
     std::mem::forget(st);
     std::mem::forget(p);
 }
+
+// K12: ParseCommand::eval (plain, not adjacent) – bounded: command name + 2 further items with every ledger.
+// From C08: "from then on the items to its right ... are judged by the subcommand's own parser": the inner parser must see
+// exactly the items from the command name to the end of the enclosing scope, whatever the enclosing level already claimed.
+static mut SEEN_START: usize = usize::MAX;
+static mut SEEN_END: usize = usize::MAX;
+
+struct ScopeProbe;
+impl Parser<()> for ScopeProbe {
+    fn eval(&self, args: &mut State) -> Result<(), Error> {
+        let sc = args.scope();
+        unsafe {
+            SEEN_START = sc.start;
+            SEEN_END = sc.end;
+        }
+        // claim everything that is offered so that the level finishes without leftovers (no error rendering)
+        let mut i = sc.start;
+        while i < sc.end {
+            args.remove(i);
+            i += 1;
+        }
+        Ok(())
+    }
+    fn meta(&self) -> Meta {
+        Meta::Skip
+    }
+}
+
+#[kani::proof]
+#[kani::unwind(6)]
+fn k12_command_scope_is_name_to_end() {
+    let mut items = Vec::with_capacity(3);
+    let mut name = Vec::with_capacity(1);
+    name.push(b'c');
+    items.push(Arg::Word(<OsString as std::os::unix::ffi::OsStringExt>::from_vec(name)));
+    items.push(Arg::Word(OsString::new()));
+    items.push(Arg::Word(OsString::new()));
+    let p1: bool = kani::any();
+    let p2: bool = kani::any();
+    let mut ledger = Vec::with_capacity(3);
+    ledger.push(ItemState::Unparsed);
+    ledger.push(if p1 { ItemState::Unparsed } else { ItemState::Parsed });
+    ledger.push(if p2 { ItemState::Unparsed } else { ItemState::Parsed });
+    let mut st = State::verif_mk(items, ledger, 0, 3);
+    let mut longs = Vec::with_capacity(1);
+    longs.push("c");
+    let cmd = ParseCommand {
+        longs,
+        shorts: Vec::new(),
+        help: None,
+        subparser: OptionParser { inner: Box::new(ScopeProbe), info: crate::info::Info::default() },
+        adjacent: false,
+    };
+    let r = cmd.eval(&mut st);
+    assert!(r.is_ok());
+    assert!(unsafe { SEEN_START } == 0);
+    assert!(unsafe { SEEN_END } == 3);
+    assert!(st.verif_remaining() == 0);
+    kani::cover!(!p1 && p2);
+    std::mem::forget(r);
+    std::mem::forget(st);
+    std::mem::forget(cmd);
+}
